@@ -194,10 +194,9 @@ theorem set_eager_fail (c : Cfg) (s : State) (h : Nat) (o : Obj) (kw : Kw) (hl :
 theorem set_lazy (c : Cfg) (s : State) (h : Nat) (o : Obj) (kw : Kw) (hl : c.lazy = true) :
     tags (opSet c s h o kw).2.1 = evTags c .update
     ∧ (opSet c s h o kw).1.rows = s.rows
-    ∧ (vecInvalid (colVec c.ncols (rewrite .update c.listeners kw)) = false →
+    ∧ ((opSet c s h o kw).2.2 = .ok →
         (opSet c s h o kw).1 = s.setObj h { o with pending := mergeVec o.pending (colVec c.ncols (rewrite .update c.listeners kw)) })
-    ∧ (vecInvalid (colVec c.ncols (rewrite .update c.listeners kw)) = true →
-        (opSet c s h o kw).1 = s ∧ (opSet c s h o kw).2.2 = .invalid)
+    ∧ ((opSet c s h o kw).2.2 ≠ .ok → (opSet c s h o kw).1 = s)
     ∧ ((opSet c s h o kw).2.2 = .ok ↔
         (vecInvalid (colVec c.ncols (rewrite .update c.listeners kw)) = false
           ∧ unknownKey c.ncols (rewrite .update c.listeners kw) = false)) := by
